@@ -824,19 +824,40 @@ func atomEq(a, b *atom) bool {
 	return a.Col == b.Col && a.Op == b.Op && a.L1.Sym == b.L1.Sym && a.L2.Sym == b.L2.Sym
 }
 
-func (w *worker) structurallyMinimal(c qcase) bool {
+// keeper: what a reduction step has to preserve. With a witness tag the candidate must still lose (or add)
+// a row carrying that tag; untagged differences (aggregates, status) only have to stay a difference.
+type keeper func(o *outcome) bool
+
+func keepFor(witness string) keeper {
+	if witness == "" || witness == "row" {
+		return differs
+	}
+	return func(o *outcome) bool {
+		if loses(o, witness) {
+			return true
+		}
+		for _, t := range o.Extra {
+			if t == witness {
+				return true
+			}
+		}
+		return false
+	}
+}
+
+func (w *worker) structurallyMinimal(c qcase, keep keeper) bool {
 	for _, r := range reductions(c.E) {
-		if differs(w.eval(qcase{c.T, c.M, r})) {
+		if keep(w.eval(qcase{c.T, c.M, r})) {
 			return false
 		}
 	}
 	return true
 }
 
-// phaseA returns the structurally minimal case.
-func (w *worker) phaseA(c qcase) qcase {
+// phaseA returns the structurally minimal case for one witness.
+func (w *worker) phaseA(c qcase, keep keeper) qcase {
 	cur := c
-	// templates in canonical order: plain first, then the earlier multi templates
+	// templates in canonical order: plain first, then the earlier two-measurement templates
 	if cur.T != 0 {
 		t := &templates[cur.T]
 		for ti := 0; ti < cur.T; ti++ {
@@ -852,7 +873,7 @@ func (w *worker) phaseA(c qcase) qcase {
 				m = measIndex(ct.Pred)
 			}
 			cand := qcase{ti, m, cur.E}
-			if differs(w.eval(cand)) {
+			if keep(w.eval(cand)) {
 				cur = cand
 				break
 			}
@@ -861,7 +882,7 @@ func (w *worker) phaseA(c qcase) qcase {
 	if !templates[cur.T].Multi {
 		for m := 0; m < cur.M; m++ {
 			cand := qcase{cur.T, m, cur.E}
-			if differs(w.eval(cand)) {
+			if keep(w.eval(cand)) {
 				cur = cand
 				break
 			}
@@ -871,7 +892,7 @@ func (w *worker) phaseA(c qcase) qcase {
 		again = false
 		for _, r := range reductions(cur.E) {
 			cand := qcase{cur.T, cur.M, r}
-			if differs(w.eval(cand)) {
+			if keep(w.eval(cand)) {
 				cur = cand
 				again = true
 				break
@@ -881,70 +902,87 @@ func (w *worker) phaseA(c qcase) qcase {
 	return cur
 }
 
-type classified struct {
-	c       qcase
-	witness string
-}
-
-// phaseB canonicalises the atoms of a structurally minimal case; one result per witness for single
-// time atoms, one result otherwise.
-func (w *worker) phaseB(c qcase) []classified {
-	o := w.eval(c)
-	if c.E.Kind == 'a' && c.E.A.Col == "time" && c.T == 0 && o.Kind == "rows-missing" && len(o.Lost) > 0 {
-		var out []classified
-		for _, wt := range o.Lost {
-			cur := c
-			for _, ca := range canonAtoms {
-				if ca.Col != "time" || direction(ca.Op) != direction(c.E.A.Op) {
-					continue
-				}
-				if atomEq(ca, cur.E.A) {
-					break
-				}
-				cand := qcase{c.T, c.M, &expr{Kind: 'a', A: ca}}
-				if loses(w.eval(cand), wt) {
-					cur = cand
-					break
-				}
-			}
-			// first layout that still loses the witness
-			for m := 0; m < cur.M; m++ {
-				cand := qcase{cur.T, m, cur.E}
-				if loses(w.eval(cand), wt) {
-					cur = cand
-					break
-				}
-			}
-			out = append(out, classified{cur, wt})
-		}
-		return out
-	}
+// phaseB: a structurally minimal single atom on `time` (plain template) is replaced by the first atom of the
+// canonical order with the same direction that still loses the witness, on the first layout that does.
+func (w *worker) phaseB(c qcase, witness string) qcase {
+	keep := keepFor(witness)
 	cur := c
-	var nodes []*expr
-	preorder(cur.E, &nodes)
-	for pos := range nodes {
-		var now []*expr
-		preorder(cur.E, &now)
-		n := now[pos]
-		if n.Kind != 'a' {
+	for _, ca := range canonAtoms {
+		if ca.Col != "time" || direction(ca.Op) != direction(c.E.A.Op) {
 			continue
 		}
-		for _, ca := range canonAtoms {
-			if colClass(ca.Col) != colClass(n.A.Col) {
-				continue
-			}
-			if atomEq(ca, n.A) {
-				break
-			}
-			i := 0
-			cand := qcase{cur.T, cur.M, replaceAt(cur.E, &i, pos, &expr{Kind: 'a', A: ca})}
-			if differs(w.eval(cand)) && w.structurallyMinimal(cand) {
-				cur = cand
-				break
-			}
+		if atomEq(ca, cur.E.A) {
+			break
+		}
+		cand := qcase{c.T, c.M, &expr{Kind: 'a', A: ca}}
+		if keep(w.eval(cand)) {
+			cur = cand
+			break
 		}
 	}
-	return []classified{{cur, ""}}
+	for m := 0; m < cur.M; m++ {
+		cand := qcase{cur.T, m, cur.E}
+		if keep(w.eval(cand)) {
+			cur = cand
+			break
+		}
+	}
+	return cur
+}
+
+// whereClass abstracts a structurally minimal WHERE expression to the feature that makes it a class:
+//   - two-measurement template (the same WHERE is fine on the plain template): the predicate of one table
+//     is applied to the other one                                  -> "time-predicate-of-other-table"
+//   - NOT above an atom on a column whose name ends in "time"      -> "NOT"
+//   - otherwise an OR                                               -> "OR"
+//   - otherwise an atom on a column other than `time` whose name ends in "time" -> "column-name-ends-in-time"
+//   - a single atom on `time`: the canonical atom itself + the witness tag (see phaseB)
+//   - anything else (AND-only combinations on `time`): the expression itself, symbolic literals.
+func hasNotOverTime(e *expr, under bool) bool {
+	switch e.Kind {
+	case 'a':
+		return under && strings.HasSuffix(e.A.Col, "time")
+	case '!':
+		return hasNotOverTime(e.X, true)
+	}
+	return hasNotOverTime(e.X, under) || hasNotOverTime(e.Y, under)
+}
+
+func hasKind(e *expr, k byte) bool {
+	switch e.Kind {
+	case 'a':
+		return false
+	case '!':
+		return k == '!' || hasKind(e.X, k)
+	}
+	return e.Kind == k || hasKind(e.X, k) || hasKind(e.Y, k)
+}
+
+func hasSuffixCol(e *expr) bool {
+	switch e.Kind {
+	case 'a':
+		return colClass(e.A.Col) == "*time"
+	case '!':
+		return hasSuffixCol(e.X)
+	}
+	return hasSuffixCol(e.X) || hasSuffixCol(e.Y)
+}
+
+func whereClass(c qcase) (class string, singleTime bool) {
+	t := &templates[c.T]
+	switch {
+	case t.Multi:
+		return "time-predicate-of-other-table", false
+	case hasNotOverTime(c.E, false):
+		return "NOT", false
+	case hasKind(c.E, '|'):
+		return "OR", false
+	case hasSuffixCol(c.E):
+		return "column-name-ends-in-time", false
+	case c.E.Kind == 'a' && c.E.A.Col == "time" && c.T == 0:
+		return "", true
+	}
+	return sigExpr(c.E, t.Prefix, true), false
 }
 
 // sigExpr renders with symbolic literals and sorted AND/OR operands (the class does not depend on the
@@ -970,13 +1008,13 @@ func sigExpr(e *expr, prefix string, top bool) string {
 	return "(" + a + op + b + ")"
 }
 
-func signature(c qcase, o *outcome, witness string) string {
+func signature(c qcase, o *outcome, class, witness string) string {
 	t := &templates[c.T]
 	layout := measurements[c.M].Layout
 	if t.Multi {
 		layout = "cpu:hour-dirs+mem:day-files"
 	}
-	s := o.Kind + "|tmpl=" + t.Name + "|" + sigExpr(c.E, t.Prefix, true)
+	s := o.Kind + "|tmpl=" + t.Name + "|where=" + class
 	if witness != "" {
 		s += "|lost=" + witness
 	}
@@ -1127,60 +1165,116 @@ func main() {
 	wg.Wait()
 	exhaustive := stopped == 0
 
-	// ---- phase 2: minimise every raw difference, collapse into class signatures
+	// ---- phase 2: minimise every raw difference once per witness tag, collapse into class signatures
 	sort.Slice(failures, func(i, j int) bool { return failures[i].c.key() < failures[j].c.key() })
+	type job struct {
+		c       qcase
+		witness string
+	}
+	var jobs []job
+	for _, f := range failures {
+		seen := map[string]bool{}
+		ws := append(append([]string{}, f.o.Lost...), f.o.Extra...)
+		if len(ws) == 0 {
+			ws = []string{""}
+		}
+		for _, wt := range ws {
+			if !seen[wt] {
+				seen[wt] = true
+				jobs = append(jobs, job{f.c, wt})
+			}
+		}
+	}
 	next = -1
 	var minimised int64
 	var amu sync.Mutex
 	minimalSeen := map[string]bool{}
-	var minimal []qcase
+	var minimal []job
 	for _, w := range workers {
 		wg.Add(1)
 		go func(w *worker) {
 			defer wg.Done()
 			for {
 				i := atomic.AddInt64(&next, 1)
-				if int(i) >= len(failures) {
+				if int(i) >= len(jobs) {
 					return
 				}
-				mc := w.phaseA(failures[i].c)
+				mc := w.phaseA(jobs[i].c, keepFor(jobs[i].witness))
 				atomic.AddInt64(&minimised, 1)
+				k := mc.key() + "#" + jobs[i].witness
 				amu.Lock()
-				if !minimalSeen[mc.key()] {
-					minimalSeen[mc.key()] = true
-					minimal = append(minimal, mc)
+				if !minimalSeen[k] {
+					minimalSeen[k] = true
+					minimal = append(minimal, job{mc, jobs[i].witness})
 				}
 				amu.Unlock()
 			}
 		}(w)
 	}
 	wg.Wait()
-	sort.Slice(minimal, func(i, j int) bool { return minimal[i].key() < minimal[j].key() })
-	w0 := workers[0]
-	for _, mc := range minimal {
-		for _, cl := range w0.phaseB(mc) {
-			// every reported class is re-executed twice, uncached: same observation or HARNESS-NONDETERMINISM
-			o1, o2 := w0.evalRaw(cl.c), w0.evalRaw(cl.c)
-			if o1.Kind == "" || o1.Kind != o2.Kind || strings.Join(o1.LostRows, "\n") != strings.Join(o2.LostRows, "\n") ||
-				strings.Join(o1.ExtraRows, "\n") != strings.Join(o2.ExtraRows, "\n") {
-				cleanup()
-				ev.Nondeterminism("class does not reproduce identically: " + cl.c.key())
-			}
-			sig := signature(cl.c, o1, cl.witness)
-			sqlText, header := cl.c.sqlText()
-			lim := func(r []string) []string {
-				if len(r) > 12 {
-					return r[:12]
-				}
-				return r
-			}
-			run.Violate(sig,
-				fmt.Sprintf("pruned and unpruned execution differ (%s): unpruned returns %d rows; only unpruned: %v; only pruned: %v", o1.Kind, o1.NRowsU, o1.Lost, o1.Extra),
-				map[string]any{"sql": sqlText, "x-arc-database": header, "now_utc": runNow.Format(time.RFC3339), "store_dirs": listing,
-					"pruned_sql":         w0.hP.VerifTransformedSQL(context.Background(), sqlText, header),
-					"rows_only_unpruned": lim(o1.LostRows), "rows_only_pruned": lim(o1.ExtraRows),
-					"how": "POST /api/v1/query on a handler with PartitionPruner.enabled=true vs =false, same store"})
+	// smallest minimal form first: it becomes the replay / example of its class (ev keeps the first per signature)
+	sort.Slice(minimal, func(i, j int) bool {
+		if a, b := minimal[i].c.E.size(), minimal[j].c.E.size(); a != b {
+			return a < b
 		}
+		if a, b := hasSuffixCol(minimal[i].c.E), hasSuffixCol(minimal[j].c.E); a != b {
+			return !a // examples on `time` itself first
+		}
+		if a, b := minimal[i].c.key(), minimal[j].c.key(); a != b {
+			return a < b
+		}
+		return minimal[i].witness < minimal[j].witness
+	})
+	w0 := workers[0]
+	w0 := workers[0]
+	// a single time atom reached from an untagged difference (aggregate, group-by, left-join rows) takes its
+	// witnesses from the plain template's own lost rows
+	var expanded []job
+	for _, mj := range minimal {
+		if _, single := whereClass(mj.c); single && (mj.witness == "" || mj.witness == "row") {
+			if o := w0.eval(mj.c); len(o.Lost) > 0 {
+				for _, t := range o.Lost {
+					expanded = append(expanded, job{mj.c, t})
+				}
+				continue
+			}
+		}
+		expanded = append(expanded, mj)
+	}
+	for _, mj := range expanded {
+		cc := mj.c
+		class, single := whereClass(cc)
+		wt := ""
+		if single && mj.witness != "" && mj.witness != "row" {
+			cc = w0.phaseB(cc, mj.witness)
+			wt = mj.witness
+			class = sigExpr(cc.E, "", true)
+		} else if single {
+			class = sigExpr(cc.E, "", true)
+		}
+		// every reported class is re-executed twice, uncached: same observation or HARNESS-NONDETERMINISM
+		o1, o2 := w0.evalRaw(cc), w0.evalRaw(cc)
+		if o1.Kind == "" || o1.Kind != o2.Kind || strings.Join(o1.LostRows, "\n") != strings.Join(o2.LostRows, "\n") ||
+			strings.Join(o1.ExtraRows, "\n") != strings.Join(o2.ExtraRows, "\n") {
+			cleanup()
+			ev.Nondeterminism("class does not reproduce identically: " + cc.key())
+		}
+		sig := signature(cc, o1, class, wt)
+		sqlText, header := cc.sqlText()
+		lim := func(r []string) []string {
+			if len(r) > 12 {
+				return r[:12]
+			}
+			return r
+		}
+		run.Violate(sig,
+			fmt.Sprintf("pruned and unpruned execution differ (%s) for WHERE %s: unpruned returns %d rows; only unpruned: %v; only pruned: %v",
+				o1.Kind, cc.E.render(templates[cc.T].Prefix, true, true), o1.NRowsU, o1.Lost, o1.Extra),
+			map[string]any{"sql": sqlText, "x-arc-database": header, "now_utc": runNow.Format(time.RFC3339), "store_dirs": listing,
+				"where_symbolic":     cc.E.render(templates[cc.T].Prefix, true, true),
+				"pruned_sql":         w0.hP.VerifTransformedSQL(context.Background(), sqlText, header),
+				"rows_only_unpruned": lim(o1.LostRows), "rows_only_pruned": lim(o1.ExtraRows),
+				"how": "POST /api/v1/query on a handler with PartitionPruner.enabled=true vs =false, same store"})
 	}
 	// how many raw differences each class absorbed is not tracked per class (phase A merges them);
 	// the totals are in the coverage block.
